@@ -1,19 +1,24 @@
 N = {"quick": 200, "thorough": 5000}
 EXHAUSTIVE = {"quick": False, "thorough": True}
 RULE = ("each case builds the real ExecutionManager (ExecutionManager::new + run, spawned on a current-thread tokio runtime with a paused clock) around a scripted "
-        "ExecutionClient, 1-3 instruments, request timeout T in {0,1,2,3,5,8} ticks (1 tick = 10 ms virtual): 1-4 rounds of batches of 1-24 (thorough 1-40) open/cancel "
-        "requests over 4 client order ids x 2 strategies (collisions intended), per-request client behaviour = reply ok / ok-fully-filled / rejected / rejected-naming-an-instrument "
+        "ExecutionClient, 1-3 instruments, 0-3 configured assets (`init T n [m]`; 0 = the asset table is empty), request timeout T in {0,1,2,3,5,8} ticks (1 tick = 10 ms virtual): 1-4 rounds of batches of 1-24 (thorough 1-40) open/cancel "
+        "requests over 4 client order ids x 2 strategies (collisions intended), per-request client behaviour = reply ok / ok-fully-filled / rejected / rejected-naming-an-instrument / "
+        "Connectivity(Timeout | ExchangeOffline | Socket) AS THE CLIENT'S ANSWER / AssetInvalid(asset) / BalanceInsufficient(asset) / RateLimit / OrderAlreadyCancelled / "
+        "OrderAlreadyFullyFilled - the scripted client returns the real UnindexedOrderError values, 50 % ok, 10 % connectivity, 10 % asset-carrying - "
         "after a delay in {0, <T, =T, T+1, >T, never}; time then passes by `adv dt` (sleep: timers fire one at a time = prompt polls) or `jump dt` (tokio::time::advance: the clock "
         "jumps over response time and deadline = late poll), dt in {1, T, T+1, 0..T+5}; 12% of cases send Shutdown mid-way, 3% send a request for an unconfigured key (manager panics), "
         "and with probability 0/0/8/30% per case-class a client answer does not echo the request (other exchange, unknown or other instrument, other cid/strategy/fields, unknown "
-        "name in the error). Thorough additionally enumerates T=2, two requests (kind x delay in {0,1,2,3,never}) sent 0/1 ticks apart x 9 time scripts (1 800 cases). "
+        "instrument or unknown ASSET name in the error: the response cannot be indexed and is filtered). Thorough additionally enumerates T=2, two requests (kind x delay in "
+        "{0,1,2,3,never}; first client answering ok or Err(Connectivity(Timeout))) sent 0/1 ticks apart x 9 time scripts (3 240 cases). "
         "Observed per op: the sorted multiset of events received on the manager's response channel and whether the manager task is running / stopped / panicked. "
         "A case is distinct by the SHA-1 of its op lines and non-trivial when at least two ops produce different observation blocks")
 ASSUMPTIONS = [
-    "EchoesKey: the ExecutionClient answers about the order it was asked about (same exchange/instrument/strategy/cid and static fields) and names only configured instruments in its errors; "
+    "EchoesKey: the ExecutionClient answers about the order it was asked about (same exchange/instrument/strategy/cid and static fields) and names only configured instruments / assets in its errors; "
     "otherwise the code skips the answer (no event) or attributes it to the echoed key - modelled and exercised, excluded from the exactly-once theorems",
     "requests name the manager's own exchange and a configured instrument (otherwise ExecutionManager::run panics; model and harness both report `panic`)",
-    "the AccountEventIndexer is the identity on configured keys (its correctness is property C04)",
+    "the AccountEventIndexer is the identity on configured keys - instruments AND assets (find_asset_index: asset names 0..m-1 configured) - and fails elsewhere (its correctness is property C04)",
+    "a client's answer Err(Connectivity(Timeout)) produces the SAME OrderError value as the manager's own timeout (manager.rs:356/412 vs indexer.rs:255): the response event and the "
+    "timeout event of a faithful client are equal values; only the fate (and the arrival time) differs - modelled as the code behaves (client_timeout_event_is_the_managers_timeout_event)",
     "FuturesUnordered, tokio::select! fairness, timer-wheel granularity and wake-ups are NOT modelled: the model is a labelled transition system whose `poll` label may be taken at any time",
     "requests still in flight at Shutdown (or when the request stream closes / the response receiver is dropped) are dropped: the property says `while running`",
     "virtual time only (paused clock, current-thread runtime); multi-thread runtimes are not exercised",
@@ -48,11 +53,16 @@ LEVEL_TEXT = ("Proof (PARTIAL: bookkeeping proved, runtime tied by correspondenc
               "(a response arriving within the timeout is always delivered as the response, a silent client always yields Connectivity(Timeout), never both; a response arriving AFTER the "
               "timeout is reported as timeout iff the future is polled before it arrives - with a late poll tokio's Timeout polls the inner future first and the late response wins: this is "
               "the only schedule dependence and is shown by an example and reproduced on the real code with tokio::time::advance); attribution (kind, exchange, instrument, strategy, cid of "
-              "every event are the request's); refines_spec; resolved_when_polled and eventually_resolved_partial (once every outstanding deadline has passed and the ready futures are "
+              "every event are the request's; an event carries Connectivity(Timeout) iff the future timed out or the client itself answered that error); the FULL reply alphabet of "
+              "UnindexedOrderError (review C07-4): unanswered_iff (neither <=> response whose echoed key, instrument name or ASSET name the indexer does not know), "
+              "client_timeout_is_not_manager_timeout (a client answering Err(Connectivity(Timeout)) in time: fate = response on every schedule, the RESPONSE event - echoed key and fields, "
+              "through the indexer - is on the channel) with client_timeout_event_is_the_managers_timeout_event (the error VALUE is the manager's: for a faithful client the two events are "
+              "equal; ExchangeOffline / Socket differ), connectivity_and_nameless_never_filtered, balance_insufficient_is_answered (BalanceInsufficient / AssetInvalid answered iff the asset "
+              "is configured, else filtered; for builder-produced systems C04M same_assets_for_every_order discharges it), error_answers_are_delivered, attribution_timeout_iff; refines_spec; resolved_when_polled and eventually_resolved_partial (once every outstanding deadline has passed and the ready futures are "
               "polled nothing stays in flight). NOT modelled, hence not proved: FuturesUnordered, tokio::select! fairness (that a ready future IS eventually polled - liveness is only "
               "`_partial`), timer-wheel granularity and wake-ups; these are exercised, not proved, by running the real ExecutionManager::run under virtual time on every check.")
 LEVEL_NOTE = ("Trusted: Lean kernel; axioms propext/Classical.choice/Quot.sound only; the hand-written transition system (tied to manager.rs/request.rs by sampled correspondence: "
               "200 quick / 5 000 random + 1 800 enumerated small-scope cases thorough, prompt and late time steps, batches up to 40 outstanding); tokio's paused clock; harness and driver. "
-              "Hypotheses: EchoesKey (client answers about the order it was asked about; violations are modelled and exercised but excluded from exactly-once: the code then emits no event "
+              "Hypotheses: EchoesKey (client answers about the order it was asked about, error names - instrument / asset - configured; violations are modelled and exercised but excluded from exactly-once: the code then emits no event "
               "or attributes it to the echoed key), requests for configured keys (else the manager panics), indexer = identity on configured keys (C04). Requests in flight at Shutdown are "
               "dropped (property: `while running`). Multi-thread runtimes are not exercised (paused clock needs the current-thread runtime).")
